@@ -33,6 +33,20 @@ inductive Task where
   | leave (k : SessKey) (mode : LeaveMode)
   deriving Inhabited
 
+/-- A session handler sleeping in the retry loop of `dealer.yield`: the caller's queue was
+    full, the YIELD is re-posted after `delay`, doubling, until delivered or 60 s have passed. -/
+structure Retry where
+  callee : SessKey
+  req : Nat
+  opts : Dict
+  args : List WVal
+  kw : Dict
+  progress : Bool
+  start : Nat
+  next : Nat
+  delay : Nat
+  deriving Inhabited
+
 structure Realm where
   cfg : Config := {}
   broker : Broker := {}
@@ -45,6 +59,9 @@ structure Realm where
   queues : List (SessKey × List Msg) := []     -- router→client queues of attached sessions
   closedPeers : List SessKey := []             -- peers closed during this step
   tasks : List Task := []
+  retries : List Retry := []                   -- handlers busy in the yield retry loop
+  deferred : List (SessKey × LeaveMode) := []  -- departures noticed only when the handler is free again
+  ghosts : List SessKey := []                  -- departed while not reading: closure unobserved until `resume`
   now : Nat := 0
   pubCount : Nat := 0
   rnd : Nat := 0                               -- oracle for the `random` invocation policy
@@ -155,6 +172,10 @@ def handleUnsubscribe (r : Realm) (s : Session) (req sub : Nat) : Realm :=
 
 /-! ### the dealer, seen from a session handler -/
 
+/-- the invocation policies `dealer.register` accepts -/
+def knownPolicies : List String :=
+  ["", InvokeSingle, InvokeFirst, InvokeLast, InvokeRoundRobin, InvokeRandom]
+
 /-- `dealer.register` -/
 def handleRegister (r : Realm) (s : Session) (req : Nat) (opts : Dict) (proc : String) : Realm :=
   let m := opts.optString OptMatch
@@ -170,6 +191,9 @@ def handleRegister (r : Realm) (s : Session) (req : Nat) (opts : Dict) (proc : S
     r.trySend ⟨s.key, errMsg tREGISTER req ErrOptionDisallowedDiscloseMe⟩
   else
   let invoke := opts.optString OptInvoke
+  if !(knownPolicies.contains invoke) then
+    r.trySend ⟨s.key, .error tREGISTER req [] ErrInvalidArgument [.str "<text>"] []⟩
+  else
   let fwd := opts.optFlag OptForwardTimeout
   r.applyD (syncRegister r.ds s.key req proc m invoke disclose fwd wampURI)
 
@@ -189,15 +213,22 @@ def handleCancel (r : Realm) (s : Session) (req : Nat) (opts : Dict) : Realm :=
   else
     r.trySend ⟨s.key, .error tCANCEL req [] ErrInvalidArgument [.str "<text>"] []⟩
 
-/-- `dealer.yield` (the retry loop for a blocked caller is modelled by `again`; see `Stall`) -/
+def sendResultDeadlineMs : Nat := 60000
+def yieldRetryDelayMs : Nat := 1
+
+def busy (r : Realm) (k : SessKey) : Bool := r.retries.any (fun x => x.callee == k)
+
+/-- `dealer.yield`: when the caller's queue is full the handler goroutine enters the retry loop
+    (it handles nothing else meanwhile); `retryDue` below is one turn of that loop. -/
 def handleYield (r : Realm) (s : Session) (req : Nat) (opts : Dict) (args : List WVal) (kw : Dict) : Realm :=
   let progress := opts.optFlag OptProgress
   let o := syncYield r.denv r.ds s.key req opts args kw progress true
+  let r := r.applyD o
   if o.again then
-    -- the caller is blocked: the model of the retry loop gives up at once (see DESIGN §6 C07)
-    let o2 := syncYield r.denv o.st s.key req opts args kw progress false
-    r.applyD o2
-  else r.applyD o
+    { r with retries := r.retries ++ [{ callee := s.key, req := req, opts := opts, args := args, kw := kw,
+                                        progress := progress, start := r.now,
+                                        next := r.now + yieldRetryDelayMs, delay := yieldRetryDelayMs }] }
+  else r
 
 def handleError (r : Realm) (s : Session) (req : Nat) (details : Dict) (err : String)
     (args : List WVal) (kw : Dict) : Realm :=
@@ -295,7 +326,12 @@ def leave (r : Realm) (k : SessKey) (mode : LeaveMode) : Realm :=
   -- only at the end of this atomic step: `trySend` to it must still succeed.)
   let (tst, r) := r.takeTestaments k
   let r :=
-    if isShutdown then r else
+    if isShutdown then
+      -- removeSessionQuiet: the same table updates, no meta events, no replies
+      let o := syncRemoveSession r.denv r.ds k
+      let (b, _, _) := r.broker.syncRemoveSession k r.pubCount
+      { r with ds := o.st, broker := b }.setPanic o.panic
+    else
       let o := syncRemoveSession r.denv r.ds k
       let r := r.applyD o
       let (b, sends, n) := r.broker.syncRemoveSession k r.pubCount
@@ -309,7 +345,8 @@ def leave (r : Realm) (k : SessKey) (mode : LeaveMode) : Realm :=
                                     args := [sidVal k, detailOr s.details "authid", detailOr s.details "authrole"] }])
   -- sess.Close()
   { r with clients := r.clients.filter (fun c => c.key != k), ending := r.ending.filter (· != k),
-           closedPeers := r.closedPeers ++ [k] }
+           closedPeers := r.closedPeers ++ [k],
+           ghosts := if s.stalled then r.ghosts ++ [k] else r.ghosts }
 
 /-! ### meta procedures (`metaProcedureHandler` and the handlers it dispatches to) -/
 
@@ -640,7 +677,9 @@ def runTask (r : Realm) : Task → Realm
       let (rsp, r) := metaProc r proc req details args kw
       r.addTasks [.metaMsg rsp]
   | .metaMsg m => handleMsg r r.metaS m
-  | .leave k mode => r.leave k mode
+  | .leave k mode =>
+    -- a handler in the yield retry loop notices nothing until the loop ends
+    if r.busy k then { r with deferred := r.deferred ++ [(k, mode)] } else r.leave k mode
 
 /-- run pending tasks, oldest first, until none is left (or the fuel runs out) -/
 def drain : Nat → Realm → Realm
@@ -693,13 +732,40 @@ inductive Op where
   | rnd (n : Nat)                      -- sets the oracle for the random invocation policy
   deriving Inhabited
 
-/-- fire the call timers that are due, in deadline order -/
-def fireTimers (r : Realm) : Realm :=
-  let due := r.ds.timers.filter (fun t => !t.canceled && t.deadline ≤ r.now)
-  let due := due.mergeSort (fun a b => a.deadline ≤ b.deadline)
-  let r := { r with ds := { r.ds with timers := r.ds.timers.filter (fun t => !(t.deadline ≤ r.now) && !t.canceled) } }
-  due.foldl (fun r t =>
-    r.applyD (syncCancel r.denv r.ds t.caller t.req CancelModeKillNoWait ErrTimeout [.str "<text>"])) r
+/-- one turn of the retry loop of `dealer.yield`, at the time its `time.After` fires -/
+def retryDue (r : Realm) (x : Retry) : Realm :=
+  let r := { r with retries := r.retries.filter (fun y => y.callee != x.callee) }
+  let canRetry := decide (r.now - x.start < sendResultDeadlineMs)
+  let o := syncYield r.denv r.ds x.callee x.req x.opts x.args x.kw x.progress canRetry
+  let r := r.applyD o
+  if o.again then
+    { r with retries := r.retries ++ [{ x with next := r.now + x.delay * 2, delay := x.delay * 2 }] }
+  else
+    -- the handler is free again: departures it had not noticed happen now
+    let mine := r.deferred.filter (fun d => d.1 == x.callee)
+    { r with deferred := r.deferred.filter (fun d => d.1 != x.callee),
+             tasks := r.tasks ++ mine.map (fun d => Task.leave d.1 d.2) }
+
+/-- a call-timeout goroutine fires: `syncCancel(killnowait, wamp.error.timeout)` -/
+def timerDue (r : Realm) (t : Timer) : Realm :=
+  let r := { r with ds := { r.ds with timers := r.ds.timers.filter (fun y => y.id != t.id) } }
+  r.applyD (syncCancel r.denv r.ds t.caller t.req CancelModeKillNoWait ErrTimeout [.str "<text>"])
+
+inductive Due where
+  | timer (t : Timer)
+  | retry (x : Retry)
+
+def Due.time : Due → Nat
+  | .timer t => t.deadline
+  | .retry x => x.next
+
+/-- the earliest timed event not after `limit` (call timers before retries at equal times) -/
+def nextDue (r : Realm) (limit : Nat) : Option Due :=
+  let ts := (r.ds.timers.filter (fun t => !t.canceled && t.deadline ≤ limit)).map Due.timer
+  let rs := (r.retries.filter (fun x => x.next ≤ limit)).map Due.retry
+  (ts ++ rs).foldl (fun best d => match best with
+    | none => some d
+    | some b => if d.time < b.time then some d else some b) none
 
 def taskFuel : Nat := 100000
 
@@ -711,13 +777,14 @@ def stepOp (r : Realm) : Op → Realm
   | .msg k m =>
     match r.clients.find? (fun c => c.key == k) with
     | none => r
-    | some s => if r.ending.contains k then r else handleMsg r s m
+    | some s => if r.ending.contains k || r.busy k then r else handleMsg r s m
   | .drop k =>
     if r.ending.contains k then r
     else { r with tasks := r.tasks ++ [.leave k .lost], ending := r.ending ++ [k] }
   | .stall k => { r with clients := r.clients.map (fun c => if c.key == k then { c with stalled := true } else c) }
-  | .resume k => { r with clients := r.clients.map (fun c => if c.key == k then { c with stalled := false } else c) }
-  | .tick ms => fireTimers { r with now := r.now + ms }
+  | .resume k => { r with clients := r.clients.map (fun c => if c.key == k then { c with stalled := false } else c),
+                          ghosts := r.ghosts.filter (· != k) }
+  | .tick _ => r   -- handled by `advance` in `step`
   | .rnd n => { r with rnd := n }
 
 /-- what the clients can read after the step: the queues of the sessions that are draining -/
@@ -728,17 +795,35 @@ structure Observed where
 
 def flush (r : Realm) : Observed × Realm :=
   let reading (k : SessKey) : Bool :=
+    if r.ghosts.contains k then false else
     match r.clients.find? (fun c => c.key == k) with
     | some c => !c.stalled
-    | none => true          -- departed: the harness reads what is left until the channel closes
+    | none => true          -- departed: the client reads what is left until the channel closes
   let out := r.queues.filter (fun q => reading q.1 && !q.2.isEmpty)
-  let keep := (r.queues.filter (fun q => !reading q.1)).filter (fun q => !r.closedPeers.contains q.1)
+  let seenClosed := r.closedPeers.filter reading
+  let keep := r.queues.filter (fun q => !reading q.1)
   let keepEmpty := (r.queues.filter (fun q => reading q.1 && !r.closedPeers.contains q.1)).map (fun q => (q.1, ([] : List Msg)))
-  ({ out := out, closed := r.closedPeers, panic := r.panic },
-   { r with queues := keep ++ keepEmpty, closedPeers := [] })
+  ({ out := out, closed := seenClosed, panic := r.panic },
+   { r with queues := keep ++ keepEmpty, closedPeers := r.closedPeers.filter (fun k => !reading k) })
+
+/-- let virtual time pass until `target`, running every timed event (call timeouts, yield
+    retries) at its own instant, each followed by the internal tasks it causes -/
+def advance : Nat → Realm → Nat → Realm
+  | 0, r, target => ({ r with now := target }).setPanic (some "model: timed-event fuel exhausted")
+  | fuel + 1, r, target =>
+    match nextDue r target with
+    | none => { r with now := target }
+    | some d =>
+      let r := { r with now := max r.now d.time }
+      let r := match d with
+        | .timer t => r.timerDue t
+        | .retry x => r.retryDue x
+      advance fuel (drain taskFuel r) target
 
 def step (r : Realm) (op : Op) : Observed × Realm :=
-  flush (drain taskFuel (stepOp r op))
+  match op with
+  | .tick ms => flush (advance 10000 r (r.now + ms))
+  | _ => flush (drain taskFuel (stepOp r op))
 
 end Realm
 end Nexus.L2
